@@ -279,3 +279,49 @@ impl emit_batcher::verif::Hooks for RecHooks {
         self.0.hook(&event);
     }
 }
+
+/// Build the processor's error for the abstract outcome `want` (None = not retryable, Some(rem) =
+/// retry this remainder) through one of the forms of Batcher.tla's ErrForms; successive calls
+/// rotate through the forms.  The receiver must treat all of them alike (BE_Build(form, want) = want).
+pub fn build_error(want: Option<Vec<i64>>) -> emit_batcher::BatchError<Vec<i64>> {
+    use emit_batcher::BatchError;
+    static NEXT: std::sync::atomic::AtomicUsize = std::sync::atomic::AtomicUsize::new(0);
+    #[derive(Debug)]
+    struct E;
+    impl std::fmt::Display for E {
+        fn fmt(&self, f: &mut std::fmt::Formatter) -> std::fmt::Result {
+            write!(f, "scripted failure")
+        }
+    }
+    impl std::error::Error for E {}
+    let direct = |w: Option<Vec<i64>>| match w {
+        None => BatchError::no_retry(E),
+        Some(r) => BatchError::retry(E, r),
+    };
+    match NEXT.fetch_add(1, std::sync::atomic::Ordering::Relaxed) % 6 {
+        // direct
+        0 => direct(want),
+        // mapNoneToSome
+        1 => match want {
+            None => BatchError::no_retry(E),
+            Some(r) => BatchError::<Vec<i64>>::no_retry(E).map_retryable(move |_| Some(r)),
+        },
+        // mapSomeToSome
+        2 => match want {
+            None => BatchError::no_retry(E),
+            Some(r) => BatchError::retry(E, Vec::<i64>::new()).map_retryable(move |_| Some(r)),
+        },
+        // mapSomeToNone
+        3 => match want {
+            None => BatchError::retry(E, Vec::<i64>::new()).map_retryable(|_| None),
+            Some(r) => BatchError::retry(E, r),
+        },
+        // mapIdentity
+        4 => direct(want).map_retryable(|o| o),
+        // tryIntoRoundTrip
+        _ => match direct(want).try_into_retryable() {
+            Ok(r) => BatchError::retry(E, r),
+            Err(e) => e,
+        },
+    }
+}
